@@ -25,6 +25,29 @@ def obligations(tier, seed):
     return profiles.obligations_for("C10", tier)
 
 
+def sim_after_other_flag(p, ctx):
+    """The dead-time clauses also hold for a run that follows a run of the same project with the opposite auto-task flag."""
+    import warnings
+    from model.family import build, sim_kwargs
+    from model.observe import Observer, concrete_sig
+    from model.stubs import numpy_stub
+
+    M = build(p["spec"], p, ctx.symbolic)
+    with numpy_stub(ctx.symbolic), warnings.catch_warnings():
+        warnings.simplefilter("ignore")
+        kw = sim_kwargs(M)
+        ok, r = ctx.call(M.project.simulate, **dict(kw, perform_auto_task_while_absence_time=not M.run["flag"]))
+        obs = Observer(M)
+        with obs.installed():
+            ok2, r2 = ctx.call(M.project.simulate, **kw)
+    M.obs = obs
+    M.exc = None if ok2 else r2
+    if ok and ok2:
+        oracles.c10(M, ctx)
+        ctx.cover("second-run-opposite-flag")
+    ctx.sig = concrete_sig(M)
+
+
 def equiv(p, ctx):
     """simulate(absence=L); remove_absence_time_list()  ==  simulate() without absence
     (members without individually absent resources and without component-bound automatic tasks; flag False or no auto task)."""
@@ -58,7 +81,7 @@ def equiv(p, ctx):
 
 
 _sim_obligations = obligations
-REQUIRED_COVERS = {"any": profiles.REQUIRED["C10"] + ["equivalence:absence-removed"]}
+REQUIRED_COVERS = {"any": profiles.REQUIRED["C10"] + ["equivalence:absence-removed", "second-run-opposite-flag"]}
 
 
 def obligations(tier, seed):
@@ -66,6 +89,9 @@ def obligations(tier, seed):
 
     obs = _sim_obligations(tier, seed)
     thorough = tier == "thorough"
+    for ob in list(obs):
+        if ob["name"].startswith("abs/") and "auto1=1" in ob["name"] and ("k=FS" in ob["name"] or thorough):
+            obs.append(dict(ob, harness="sim_after_other_flag", name="otherflag/" + ob["name"]))
     for k in (0, 1, 2, 3):
         for layout in ("shared1", "private", "shared2"):
             for rule in ((0, 4, 5) if not thorough else (0, 1, 2, 3, 4, 5, 6, 7, 8)):
